@@ -776,6 +776,16 @@ func c07Directed() []c07Case {
 			c.prop.missed[0].val, c.prop.missed[1].val = c07Cur64(900), c07Cur64(500)
 			c.a1 = c07Cur64(100)
 		}),
+		mk(c07FPayment, "reject: payment moved from the host's missed payout into the void (sums, addresses, renter payouts consistent)", func(c *c07Case) {
+			c.prop.valid[0].val, c.prop.valid[1].val = c07Cur64(900), c07Cur64(600)
+			c.prop.missed[0].val, c.prop.missed[1].val, c.prop.missed[2].val = c07Cur64(900), c07Cur64(400), c07Cur64(200)
+			c.a1 = c07Cur64(100)
+		}),
+		mk(c07FPayment, "reject: host missed payout drained into the void while the payment is made", func(c *c07Case) {
+			c.prop.valid[0].val, c.prop.valid[1].val = c07Cur64(900), c07Cur64(600)
+			c.prop.missed[0].val, c.prop.missed[1].val, c.prop.missed[2].val = c07Cur64(900), c07Cur64(0), c07Cur64(600)
+			c.a1 = c07Cur64(100)
+		}),
 		mk(c07FClearing, "accept: clearing revision", func(c *c07Case) {
 			c.prop.valid[0].val, c.prop.valid[1].val = c07Cur64(990), c07Cur64(510)
 			c.prop.missed = append([]c07Out(nil), c.prop.valid...)
